@@ -22,7 +22,7 @@ def liftH (f : HErr → Cat) : Except HErr α → Out α
   | .ok a => .ok a
   | .error e => .err (f e)
 
-def http11 : Bytes := str "HTTP/1.1"
+def http11 : Bytes := kHttp11
 
 /-- which tree is being described: the pinned one or the one with the candidate repairs F1-F7 -/
 structure Tree where
